@@ -77,7 +77,11 @@ func dynamicReplace(in, out cty.Type) cty.Type {
 
 		return out
 	case out.IsObjectType():
-		// Objects are compatible with other objects and maps.
+		// Objects are compatible with other objects and maps. Anything else
+		// has nothing to put in place of the target's placeholders.
+		if !in.IsMapType() && !in.IsObjectType() {
+			return out
+		}
 		outTypes := map[string]cty.Type{}
 		if in.IsMapType() {
 			for attr, attrType := range out.AttributeTypes() {
